@@ -300,6 +300,15 @@ func checkC08(c *Ctx) {
 			c.Rep.Fatal(err.Error())
 			return
 		}
+		var fam struct {
+			Fam string `json:"fam"`
+		}
+		if json.Unmarshal(raw, &fam) == nil && fam.Fam == "project" {
+			scSeed = c.Seed
+			projHistoryRuns(c, c.NewPool(3), 0, []json.RawMessage{raw})
+			c.Rep.Sample(map[string]interface{}{"replayed": raw}, 1)
+			return
+		}
 		jb := wsBuild(1, raw)
 		jb.Raw = raw
 		jb.PC.ID = 1
@@ -552,6 +561,16 @@ func checkC08(c *Ctx) {
 	}
 	if len(batch) > 0 {
 		validate(batch)
+	}
+	// histories in project mode: Project.tla workspaces (entry file, what it requires, one scattered file), one file
+	// edited and saved twice; compared with fresh servers directly
+	if c.Replay == "" {
+		scSeed = c.Seed
+		n := 4
+		if c.Thorough() {
+			n = 5
+		}
+		projHistoryRuns(c, p, n, nil)
 	}
 	c.poolStats(p)
 	if surveyMode {
